@@ -179,13 +179,13 @@ theorem pickIndex_mem : ∀ (l : List Value) (i : Option Value) (r : Value), pic
         · simp [hp] at h1; subst h1; exact Or.inl rfl
       · exact Or.inr (List.mem_cons_of_mem _ h1)
 
-/-- what an error-severity report of `indexVectorError` says about the vector: as found, the picked `index` (a member of the
-    vector) has errorSeverity; in the graded variant every member has -/
-theorem indexVectorError_error {o : Opts} {a b : String} {indexes : List Value} {r : Report}
-    (hr : r ∈ indexVectorError o a b indexes) (he : r.sev = .error) :
-    (o.gradedIndexVector = true → ∀ v ∈ indexes, v.errorSeverity = true) ∧
-    (o.gradedIndexVector = false → ∃ v ∈ indexes, v.errorSeverity = true) := by
-  unfold indexVectorError at hr
+/-- what an error-severity report of `indexVectorErrorV` says about the vector: in the graded body (the code of record) every
+    member has errorSeverity; in the body as found only the picked `index` (a member of the vector) had -/
+theorem indexVectorErrorV_error {g : Bool} {o : Opts} {a b : String} {indexes : List Value} {r : Report}
+    (hr : r ∈ indexVectorErrorV g o a b indexes) (he : r.sev = .error) :
+    (g = true → ∀ v ∈ indexes, v.errorSeverity = true) ∧
+    (g = false → ∃ v ∈ indexes, v.errorSeverity = true) := by
+  unfold indexVectorErrorV at hr
   split at hr
   · simp at hr
   · split at hr
@@ -195,7 +195,7 @@ theorem indexVectorError_error {o : Opts} {a b : String} {indexes : List Value} 
         rcases pickIndex_mem indexes none index hidx with h | h
         · exact absurd h (by simp)
         · exact h
-      by_cases hg : o.gradedIndexVector = true
+      by_cases hg : g = true
       · simp only [hg, if_true] at hr
         simp at hr; subst hr
         refine ⟨fun _ v hv => ?_, fun h => by simp [hg] at h⟩
